@@ -332,8 +332,17 @@ func (m *Monitors) stepInvariants(n *Node, pre Pre) {
 			}
 		}
 	}
-	// C17 (node level): nothing is stored for a height the node was not at during this step
+	// C17 (node level): nothing is stored for a height the node was not at during this step; and a node that is not a member of a
+	// height's committee has no term logic for that height at all - whatever stores or sends there is another height's term
+	for _, sm := range n.Sent[pre.SentLen:] {
+		if sm.Meta.OK && !m.w.InCommittee(n.Idx, sm.Meta.H) {
+			m.fail("C17", "non-member-node-acted:send", "node %d is not in the committee of height %d but sent a %s for it: a message of that height reached the protocol logic of another height's term", n.Idx, sm.Meta.H, kindName(sm.Meta.Union))
+		}
+	}
 	for _, e := range n.Sto.Log[pre.StoreLen:] {
+		if !m.w.InCommittee(n.Idx, uint64(e.H)) {
+			m.fail("C17", "non-member-node-acted:store", "node %d is not in the committee of height %d but its protocol logic handled a %s for it (Store call, stored=%v): a message of that height reached another height's term", n.Idx, e.H, e.Kind, e.Stored)
+		}
 		if uint64(e.H) < pre.H || uint64(e.H) > h {
 			m.fail("C17", "stored-for-other-height", "node %d at height %d..%d stored a %s for height %d", n.Idx, pre.H, h, e.Kind, e.H)
 		}
